@@ -62,6 +62,8 @@ Text(i) ==
      [] i.mn \in {"jmp", "call"} -> i.mn \o " " \o (IF i.ops[1].k = "imm" THEN RelText(i.rel) ELSE o(1))
      [] i.mn = "ret" -> IF IsZero(i.ops[1].v) THEN "ret" ELSE "ret " \o OpText(i.ops[1], 16, FALSE)
      [] i.mn \in {"movs", "cmps", "scas", "lods", "stos"} -> i.mn \o Sfx(i.w)
+     [] i.mn = "xlat" -> "xlatb"
+     [] i.mn = "enter" -> "enter " \o OpText(i.ops[1], 16, FALSE) \o ", 0"
      [] i.mn = "pushad" -> IF i.w = 16 THEN "pushaw" ELSE "pushad"
      [] i.mn = "popad" -> IF i.w = 16 THEN "popaw" ELSE "popad"
      [] i.mn = "push" /\ i.ops[1].k = "imm" -> (IF i.w = 16 THEN "pushw " ELSE "push ") \o o(1)
@@ -155,6 +157,8 @@ Stack ==
    \cup {I2("pop", 32, <<R("r32", n)>>, "r", TRUE) : n \in {0, 4, 5}} \cup {I2("pop", 16, <<R("r16", n)>>, "r", n = 0) : n \in {0, 4}}
    \cup {I2("pop", 32, <<m>>, "m", TRUE) : m \in {M1, M3}} \cup {I2("pop", 16, <<M1>>, "m", FALSE)}
    \cup {I2(mn, w, <<>>, "", TRUE) : mn \in {"pushad", "popad"}, w \in {16, 32}}
+   \cup {I2("leave", 32, <<>>, "", TRUE)} \cup {I2("enter", 32, <<Imm(v)>>, "", v = <<8, 0>>) : v \in {<<0, 0>>, <<8, 0>>, <<0, 1>>}}
+   \cup {I2("bswap", 32, <<R("r32", n)>>, "r", n = 0) : n \in {0, 3, 4}} \cup {I2("xlat", 8, <<>>, "", TRUE)}
 Bits ==
    UNION {
      {I2(mn, w, <<R(RC(w), 0), R(RC(w), 3)>>, "rr", TRUE), I2(mn, w, <<R(RC(w), 2), R(RC(w), 2)>>, "rr", FALSE)}
@@ -232,7 +236,8 @@ GenState(i, sd, k) ==
        mv(j) == Word(h, 20 + j)
        ovm == IF MemOps(i) = {} THEN <<>> ELSE LET j == CHOOSE j \in MemOps(i) : TRUE IN Bytes(EA(i.ops[j], s0), mv(1), 4)
        ovs == IF i.mn \in StringMn THEN Bytes(reg[ESI], mv(2), 4) \o Bytes(reg[EDI], IF k % 3 = 0 THEN mv(2) ELSE mv(3), 4) ELSE <<>>
-       ovp == IF i.mn \in {"pop", "popad", "ret"} THEN Bytes(reg[ESP], mv(4), 4) ELSE <<>>
+       ovp == IF i.mn \in {"pop", "popad", "ret"} THEN Bytes(reg[ESP], mv(4), 4)
+              ELSE IF i.mn = "leave" THEN Bytes(reg[EBP], mv(4), 4) ELSE <<>>
        over == TLCEval(IF k % 5 = 4 THEN <<>> ELSE ovp \o ovs \o ovm)
        \* cmpxchg: accumulator equal to the destination in a third of the states
        s1 == [s0 EXCEPT !.over = over]
